@@ -16,6 +16,7 @@ typedef struct { fv_op_t *ops; int n; } fv_script_t;
 static unsigned char *fv_src[FV_MAXSRC]; static long fv_srclen[FV_MAXSRC];
 static long *fv_sched; static int fv_nsched, fv_schedpos;
 static fv_script_t fv_main_script, fv_eof_default; static int fv_depth = 0;
+static char *fv_tfile[16];
 static fv_script_t *fv_acts; static int fv_nacts;         /* script of the k-th action execution */
 static fv_script_t *fv_eacts; static int fv_neacts, fv_eact_counter = 0;   /* scripts of <<EOF>> action executions */
 static int fv_act_counter = 0;                             /* number of action executions so far */
@@ -115,7 +116,8 @@ static int fv_opcode(const char *w) {
         {"create", FV_OP_CREATE}, {"destroy", FV_OP_DESTROY}, {"setlineno", FV_OP_SETLINENO},
         {"getlineno", FV_OP_GETLINENO}, {"newyyin", FV_OP_NEWYYIN}, {"start", FV_OP_START},
         {"atbol", FV_OP_ATBOL}, {"terminate", FV_OP_TERMINATE}, {"flushcur", FV_OP_FLUSHCUR},
-        {"grab", FV_OP_GRAB}, {"cont", FV_OP_CONT}, {"include_end", FV_OP_INCLUDE_END}, {NULL, 0} };
+        {"grab", FV_OP_GRAB}, {"cont", FV_OP_CONT}, {"include_end", FV_OP_INCLUDE_END},
+        {"tload", FV_OP_TLOAD}, {"tdestroy", FV_OP_TDESTROY}, {NULL, 0} };
     int i; for (i = 0; tab[i].n; i++) if (!strcmp(tab[i].n, w)) return tab[i].op;
     fprintf(stderr, "harness: unknown op %s\n", w); exit(4);
 }
@@ -150,6 +152,10 @@ static void fv_load(const char *path) {
             fv_nsched = c;
         } else if (!strncmp(p, "main ", 5)) fv_parse_ops(p + 5, &fv_main_script);
         else if (!strncmp(p, "eofact ", 7)) fv_parse_ops(p + 7, &fv_eof_default);
+        else if (!strncmp(p, "tfile ", 6)) {
+            int id = (int) strtol(p + 6, &p, 10); while (*p == ' ') p++;
+            if (id >= 0 && id < 16) { fv_tfile[id] = strdup(p); fv_tfile[id][strcspn(fv_tfile[id], "\r\n")] = 0; }
+        }
         else if (!strncmp(p, "act ", 4)) {
             int k = (int) strtol(p + 4, &p, 10);
             if (k >= 0 && k < FV_MAXOPS) { fv_parse_ops(p, &fv_acts[k]); if (k + 1 > fv_nacts) fv_nacts = k + 1; }
@@ -324,6 +330,17 @@ static void fv_buffer_op(int op, long a, long b FV_DEF_LAST) {
     case FV_OP_DELETE: yy_delete_buffer(fv_buf(a) FV_AL); break;
     case FV_OP_RESTART: fv_rewind(a); yyrestart(fv_file_of(a) FV_AL); break;
     case FV_OP_NEWYYIN: fv_rewind(a); yyin = fv_file_of(a); break;
+#ifdef FV_TABLES
+    case FV_OP_TLOAD: {
+        FILE *tf = (a >= 0 && a < 16 && fv_tfile[a]) ? fopen(fv_tfile[a], "rb") : NULL;
+        int rc;
+        if (!tf) { fv_log_int("tload", -99); break; }
+        rc = yytables_fload(tf FV_AL);
+        fclose(tf);
+        fv_log_int("tload", rc);
+        break; }
+    case FV_OP_TDESTROY: fv_log_int("tdestroy", yytables_destroy(FV_A1)); break;
+#endif
     case FV_OP_SETLINENO:
 #ifdef FV_BACKEND_R
         yyset_lineno((int) a, yyscanner);
